@@ -105,7 +105,8 @@ fn run(rng: &mut Rng, idx: u64, tier: Tier) -> CaseOut {
                 return out;
             }
         };
-        let san = match run_ep(if rng.coin() { Ep::Formula } else { Ep::Tree }, &text, &sys, &empty) {
+        let san_ep = *rng.pick(&[Ep::Formula, Ep::Tree, Ep::Multiple, Ep::Extended, Ep::MultipleExtended]);
+        let san = match run_ep(san_ep, &text, &sys, &empty) {
             Call::Ok(s) => s,
             Call::Err(e) => {
                 out.violate("error on a valid closed formula", format!("k={k}: sanitising entry point Err({e}) on `{text}`"), detail(&e));
@@ -128,6 +129,21 @@ fn run(rng: &mut Rng, idx: u64, tier: Tier) -> CaseOut {
         }
         if extra == 98 {
             out.count("graphs_with_restricted_colours");
+        }
+        // the returned OBJECT (not only its BDD) must be a set of the canonical encoding: its projections to colours
+        // and to vertices must be what the same BDD gives when wrapped with the canonical graph's own context
+        {
+            let rebuilt = biodivine_lib_param_bn::symbolic_async_graph::GraphColoredVertices::new(san.as_bdd().clone(), sys.canon_graph.symbolic_context());
+            let same = crate::libg::guarded(|| san.colors().as_bdd() == rebuilt.colors().as_bdd() && san.vertices().as_bdd() == rebuilt.vertices().as_bdd());
+            if same != Ok(true) {
+                out.violate(
+                    "sanitised result is not in the canonical encoding",
+                    format!("k={k}: {} on `{text}`: colors() / vertices() of the returned set differ from those of the same BDD in the context of SymbolicAsyncGraph::new(bn) ({same:?})", san_ep.name()),
+                    detail("projections"),
+                );
+                return out;
+            }
+            out.count("projection_checks");
         }
         let unit = sys.canon_graph.unit_colored_vertices();
         let combined = match crate::libg::guarded(|| (san.intersect(unit), san.union(unit), san.is_subset(unit))) {
